@@ -782,6 +782,94 @@ class NatGen(libgen.Gen):
         cls.setdefault("seq_properties", []).append(dict(name=sname, qname=cls["qname"] + "::" + sname, num=n["qname"],
                                                          element=g["qname"]))
 
+    # ---- default arguments that are constant expressions (comparisons / arithmetic over constexpr ints and doubles)
+    def const_defaults(self):
+        r = self.r
+        import math
+        consts = []       # (name, kind, value)
+        lines = []
+        for j in range(2):
+            v = r.choice([1.5, 2.25, 0.5, 3.75, 7.5])
+            n = self.ident("vfk_d")
+            lines.append(f"constexpr double {n} = {v!r};")
+            consts.append((n, "f", v))
+        for j in range(2):
+            v = r.choice([1, 2, 3, 5, 8])
+            n = self.ident("vfk_i")
+            lines.append(f"constexpr int {n} = {v};")
+            consts.append((n, "i", v))
+        at = self.h.index("#endif", self.h.index("#define VF_POOLTAG")) + 1
+        self.h[at:at] = lines
+        ds = [c for c in consts if c[1] == "f"]
+        is_ = [c for c in consts if c[1] == "i"]
+        enums = [e for e in self.enums if not e["scoped"] and not e["owner"]]
+        ops = ["<=", "<", ">=", ">", "==", "!="]
+        r.shuffle(ops)
+        pyop = {"<=": lambda a, b: a <= b, "<": lambda a, b: a < b, ">=": lambda a, b: a >= b, ">": lambda a, b: a > b,
+                "==": lambda a, b: a == b, "!=": lambda a, b: a != b}
+
+        def cmp_expr(op):
+            """a comparison mixing a real constant with an integer next to it (decides differently when truncated)"""
+            d = r.choice(ds)
+            kind = r.randrange(4)
+            if kind == 0:
+                k = r.choice([math.floor(d[2]), math.ceil(d[2])])
+                return f"({d[0]} {op} {k})", pyop[op](d[2], k)
+            if kind == 1:
+                k = r.choice([math.floor(d[2]), math.ceil(d[2])])
+                return f"({k} {op} {d[0]})", pyop[op](k, d[2])
+            if kind == 2:
+                i = r.choice(is_)
+                return f"({d[0]} {op} {i[0]})", pyop[op](d[2], i[2])
+            i = r.choice(is_)
+            return f"({i[0]} * 2 {op} {d[0]} * 2)", pyop[op](i[2] * 2, d[2] * 2)
+
+        def bool_default(op):
+            e, v = cmp_expr(op)
+            if r.random() < 0.25:
+                return f"!{e}", not v
+            return e, v
+
+        def int_default(op):
+            x = r.randrange(4)
+            i = r.choice(is_)
+            if x == 0:
+                return f"{i[0]} * 3 + 1", i[2] * 3 + 1
+            if x == 1 and enums:
+                m = r.choice(r.choice(enums)["members"])
+                return m["qname"], m["value"]
+            e, v = cmp_expr(op)
+            a, b = r.choice([(i[0], i[2]), ("7", 7)]), r.choice([("-2", -2), ("40", 40)])
+            return f"({e} ? {a[0]} : {b[0]})", (a[1] if v else b[1])
+
+        def dbl_default(op):
+            d = r.choice(ds)
+            i = r.choice(is_)
+            x = r.randrange(3)
+            if x == 0:
+                return f"{d[0]} * 2", d[2] * 2
+            if x == 1:
+                return f"{i[0]} / 2.0 + {d[0]}", i[2] / 2.0 + d[2]
+            e, v = cmp_expr(op)
+            return f"({e} ? {d[0]} : 0.25)", (d[2] if v else 0.25)
+        for j in range(3):
+            o1, o2 = ops[2 * j], ops[2 * j + 1]
+            ps = [P(f"q0_{r.randrange(100)}", self.cat_type(r.choice("ifs")))]
+            t, v = bool_default(o1)
+            ps.append(P(f"q1_{r.randrange(100)}", T("bool"), t, int(v)))
+            t, v = bool_default(o2)
+            ps.append(P(f"q2_{r.randrange(100)}", T("bool"), t, int(v)))
+            if j == 1:
+                t, v = int_default(r.choice(ops))
+                ps.append(P(f"q3_{r.randrange(100)}", T("int", c="int"), t, v))
+            elif j == 2:
+                t, v = dbl_default(r.choice(ops))
+                ps.append(P(f"q3_{r.randrange(100)}", T("float", c="double"), t, v))
+            if r.random() < 0.3:
+                ps = ps[1:]
+            self.emit(None, "free", self.ident("fcd_"), ps, ret=self.rand_scalar(False), feature="const-default")
+        self.feat("const-defaults")
+
     # ---- whole library
     def generate(self, n_classes=None, ns=None, dep_bases=()):
         self.n_top = n_classes or self.r.choice([3, 4])
@@ -831,6 +919,7 @@ class NatGen(libgen.Gen):
         for fn in self.free_extra:
             fn()
         self.x_ovset(None, "", free=True)
+        self.const_defaults()
         self.feat("free-ovset")
         consts = []
         for i in range(r.choice([2, 3])):
